@@ -1059,6 +1059,9 @@ class Kernel:
                 self._die(proc, ('signal', signum))
                 raise SimDead()
             self.record('sig-deliver', proc.pid, signum, a.label)
+            hook = self.cfg.get('_on_sig_deliver')
+            if hook is not None:
+                hook(proc, signum, a.label)
             a.in_handler += 1
             try:
                 h(signum, None)
